@@ -106,7 +106,13 @@ def main():
     for pid in ALL:
         if pid not in CHECKS:
             continue
-        c = CHECKS[pid]
+        c = dict(CHECKS[pid])
+        # the claimed category follows what the check's own evidence reports (proof only if no bounded stand-in is involved)
+        try:
+            ev = json.load(open(os.path.join(HERE, 'evidence', pid + '.json')))
+            c['category'] = ev['level']
+        except (OSError, ValueError, KeyError):
+            pass
         checks.append({
             "property_id": pid, "quick_cmd": "./check %s --tier quick" % pid, "thorough_cmd": "./check %s --tier thorough" % pid,
             "evidence_file": "/verif/evidence/%s.json" % pid, "replay_cmd_template": "./check replay {path}", "engine": "pyvc",
